@@ -23,11 +23,15 @@ DBusMessage *dbus_message_new (int type)
 }
 DBusMessage *dbus_message_new_error (DBusMessage *reply_to, const char *name, const char *text)
 {
-  struct DBusMessage *m = dbus_message_new (DBUS_MESSAGE_TYPE_ERROR);
+  struct DBusMessage *m;
+  /* public-API precondition (dbus_message_set_reply_serial: _dbus_return_val_if_fail (reply_serial != 0)), fatal in builds with checks */
+  VF_ASSERT (reply_to->serial != 0, "dbus_message_new_error is only given messages that carry a serial number");
+  m = dbus_message_new (DBUS_MESSAGE_TYPE_ERROR);
   if (!m) return 0;
   m->error_name = name; m->reply_serial = reply_to->serial; m->dest = reply_to->sender; m->no_reply = 1;
   return m;
 }
+void dbus_message_set_serial (DBusMessage *m, dbus_uint32_t s) { m->serial = s; }
 void dbus_message_set_no_reply (DBusMessage *m, dbus_bool_t v) { m->no_reply = v; }
 dbus_bool_t dbus_message_set_reply_serial (DBusMessage *m, dbus_uint32_t s) { if (vf_fail ()) return 0; m->reply_serial = s; return 1; }
 dbus_bool_t dbus_message_set_error_name (DBusMessage *m, const char *n) { if (vf_fail ()) return 0; m->error_name = n; return 1; }
